@@ -25,12 +25,15 @@ ASSUMPTIONS = [
     'set-valued module tables are replaced by set subclasses whose iteration order the harness chooses; for a first-match '
     'scan the outcome depends only on which matching element comes first, so "e first, rest sorted" is run for every e',
     'real hash seeds are a finite confirmation sweep in fresh interpreters; the deciding exploration is the order sweep',
+    'order independence (part 5): a leak from parse A into a later parse of B shows as a difference for B between the '
+    'forward and the reversed sweep of a corpus containing both (unless B is also contaminated from the other side)',
     'isolation: observable influence only - module tables may change (memo caches are legitimate) as long as no later '
     'result does; "no shared mutable state" = disjoint reachable sets of mutable containers and expressions',
 ]
 DELIMS = ['(', ')', '<', '>', '[', ']', '{', '}', '\\{', '\\}', '.', '|', '\\langle', '\\rangle', '\\lfloor', '\\rfloor',
           '\\lceil', '\\rceil', '\\ulcorner', '\\urcorner', '\\lbrack', '\\rbrack']
 PREFIXES = ['left', 'right', 'big', 'Big', 'bigg', 'Bigg']
+NONDELIMS = ['/', '\\|', 'a', '\\Vert', '\\' + 'q', '', ' ', '\\/', '*', '+']     # after a sizing prefix, outside the table
 FOLLOW = ['', '(', ')', '<', '[', ']', '{', '}', '\\', '.', '|', 'a', ' ', 'g', '\\}']
 
 
@@ -143,6 +146,9 @@ def sizing_corpus():
         for d in DELIMS:
             for f in FOLLOW:
                 out.append('$a\\%s%s%s b$' % (p, d, f))
+    for p in PREFIXES:
+        for nd in NONDELIMS:
+            out.append('$a\\%s%s b$' % (p, nd))
     n = gram.Names(seed())
     out += ['\\newcommand{\\%s}{\\begin{%s}}' % (n.x, n.e), '\\renewcommand{\\%s}{%s}' % (n.x, n.a),
             '$\\left.|%s\\right|.$' % n.a, '\\big.|', '$\\bigg\\}\\}$']
@@ -218,6 +224,58 @@ def check_seeds(acc, seeds):
                       digs, size=1)
     else:
         acc.ok(hash(('seeds', tuple(seeds))), cls='seeds')
+
+
+# ---------------------------------------------------------------------------------------------
+# part 5: the order of parses within one process does not matter (fresh interpreters, forward vs reversed)
+
+ORDER_SCRIPT = r"""
+import sys, json, hashlib
+sys.path.insert(0, %(verif)r)
+from mc.props import c17
+L = c17.order_corpus(%(which)r)
+idx = list(range(len(L)))
+if %(rev)r:
+    idx.reverse()
+out = [None] * len(L)
+for i in idx:
+    out[i] = hashlib.blake2b(repr(c17.outcome(L[i])).encode('utf8', 'surrogatepass'), digest_size=8).hexdigest()
+print(json.dumps(out))
+"""
+
+
+def order_corpus(which):
+    if which == 'sizing':
+        return sizing_corpus() + pool_sources()
+    syms = strings.sigma('full')
+    k = int(which[5:])
+    part = [syms[k]] if k < len(syms) else ['']
+    return [a + b + c for a in part for b in [''] + syms for c in [''] + syms]
+
+
+def check_order_independence(acc, which):
+    runs = {}
+    procs = []
+    for rev in (False, True):
+        env = dict(os.environ, PYTHONDONTWRITEBYTECODE='1')
+        procs.append((rev, subprocess.Popen([sys.executable, '-c', ORDER_SCRIPT % {'verif': VERIF, 'which': which, 'rev': rev}],
+                                            env=env, stdout=subprocess.PIPE, stderr=subprocess.PIPE, text=True)))
+    for rev, p in procs:
+        out, err = p.communicate()
+        if p.returncode != 0:
+            raise HarnessError('order run %s/%s failed: %s' % (which, rev, err[-300:]))
+        runs[rev] = json.loads(out)
+    L = order_corpus(which)
+    for i, s in enumerate(L):
+        acc.extra['order_independence_parses'] += 2
+        if runs[False][i] != runs[True][i]:
+            acc.violation('parse-order', {'part': 5, 'which': which, 'index': i, 'src': s},
+                          'the same outcome whether the corpus is parsed first-to-last or last-to-first (fresh interpreter each)',
+                          {'forward': runs[False][i], 'reversed': runs[True][i]}, size=len(s))
+            return
+    acc.ok(hash(('order-independence', which)), cls='parse-order')
+    if which == 'sizing':
+        acc.sample({'part': 5, 'corpus': which, 'sources': len(L), 'orders': ['forward', 'reversed']})
 
 
 # ---------------------------------------------------------------------------------------------
@@ -420,6 +478,9 @@ def shards(tier):
     for ia in range(len(P)):
         out.append({'kind': 'pairs', 'a': ia})
     out.append({'kind': 'twice'})
+    out.append({'kind': 'order', 'which': 'sizing'})
+    for k in range(len(strings.sigma('full')) + 1):
+        out.append({'kind': 'order', 'which': 'sigma%d' % k})
     return out
 
 
@@ -485,6 +546,8 @@ def run_shard(shard):
         solo = list(_SOLO)
         for ib in range(len(P)):
             check_pair(acc, shard['a'], ib, solo)
+    elif kind == 'order':
+        check_order_independence(acc, shard['which'])
     elif kind == 'twice':
         for entry in pool():
             check_twice(acc, entry)
@@ -529,6 +592,8 @@ def replay(case):
                     setattr(mod, name, val)
             if got != base:
                 acc.violation('set-order', case, list(base[:2]), list(got[:2]))
+    elif part == 5:
+        check_order_independence(acc, case['which'])
     elif part == 3:
         check_seeds(acc, [int(s) if s != 'random' else s for s in case['seeds']])
     elif case.get('twice'):
@@ -570,12 +635,15 @@ def coverage(tier, total):
                 'element e, iteration order "e first" x %d sizing-command inputs (6 prefixes x 22 delimiters x %d following '
                 'characters); part 3: PYTHONHASHSEED 0..%d and random in fresh interpreters; part 4: every interleaving (20) '
                 'of parse-edit-observe for every ordered pair of %d pool programs, from a process that has already parsed and '
-                'edited the whole pool; same source parsed twice -> equal trees with disjoint reachable mutable state'
+                'edited the whole pool; same source parsed twice -> equal trees with disjoint reachable mutable state; part 5: '
+                'the sizing corpus + pool sources, and every string of <= 3 symbols of the full token alphabet (one corpus per '
+                'first symbol), parsed first-to-last and last-to-first in two fresh interpreters: every outcome equal'
                 % (len(sizing_corpus()), len(FOLLOW), 7 if tier == 'quick' else 63, len(pool())),
         'input_form_parses': int(ex['form_parses']),
         'orders_explored': int(ex['orders']),
         'order_parses': int(ex['order_parses']),
         'seed_runs': int(ex['seed_runs']),
+        'order_independence_parses': int(ex['order_independence_parses']),
         'interleavings': int(ex['interleavings']),
         'tables': sorted('%s.%s' % (p[0][0].__name__, p[0][1]) for v, p in find_tables().values()),
     }
